@@ -115,6 +115,8 @@ type world struct {
 	pendingHandover uint64
 	incPaidCheck    map[string]bool // assignees of incoming-group signings completed in this block
 	classes         map[string]bool
+	wasCurrent      map[uint64]int
+	lastCur         uint64
 	stopped         bool
 }
 
@@ -128,7 +130,7 @@ func poolAddr(i int) string { return sim.NewAccount(fmt.Sprintf("user%d", i)).Ad
 
 func newWorld(c c18Case, v *pbt.Verdict) *world {
 	w := &world{c: c, v: v, grps: map[uint64]*grp{}, sigs: map[uint64]*sigInfo{}, nextPID: 1,
-		active: map[string]bool{}, de: map[string]int{}, bal: map[string]sdk.Coins{}, classes: map[string]bool{}}
+		active: map[string]bool{}, de: map[string]int{}, bal: map[string]sdk.Coins{}, classes: map[string]bool{}, wasCurrent: map[uint64]int{}}
 	w.fee = sdk.NewCoins()
 	if c.Fee > 0 {
 		w.fee = sdk.NewCoins(sdk.NewInt64Coin("uband", c.Fee))
@@ -1201,6 +1203,10 @@ func (w *world) compare(h int64, T time.Time, curBefore uint64) {
 	ctx := w.ch.Ctx()
 	bk := w.ch.App.BandtssKeeper
 	m := w.m
+	if m.cur != 0 && (w.lastCur != m.cur) {
+		w.wasCurrent[m.cur]++ // number of times the group became the current group
+		w.lastCur = m.cur
+	}
 	// current group
 	cg := bk.GetCurrentGroup(ctx)
 	if uint64(cg.GroupID) != m.cur {
@@ -1274,6 +1280,28 @@ func (w *world) compare(h int64, T time.Time, curBefore uint64) {
 			return
 		}
 		w.v.Count("converse_members_differ_during_transition", 1)
+	}
+	// activity flags: a bandtss member and the tss member record of the same account in the SAME group say the same
+	for _, mem := range bk.GetMembers(ctx) {
+		tm, err := w.ch.App.TSSKeeper.GetMemberByAddress(ctx, mem.GroupID, mem.Address)
+		if err != nil {
+			w.v.Failf("C18/member-of-foreign-group", "height %d: bandtss lists %s in group %d but x/tss has no such member: %v", h, mem.Address, mem.GroupID, err)
+			return
+		}
+		if tm.IsActive != mem.IsActive {
+			where := "current"
+			if uint64(mem.GroupID) != m.cur {
+				where = "incoming"
+			}
+			if w.wasCurrent[uint64(mem.GroupID)] > 1 || (w.wasCurrent[uint64(mem.GroupID)] == 1 && uint64(mem.GroupID) != m.cur) {
+				where += "-group-that-was-current-before"
+			}
+			w.v.Count("activity_flags_disagree@"+where, 1)
+			w.class("activity-flags-disagree@" + where)
+			if os.Getenv("C18_DEBUG") != "" {
+				fmt.Printf("C18_DEBUG flags disagree h=%d %s group %d bandtss=%v tss=%v (%s) %s\n", h, mem.Address, mem.GroupID, mem.IsActive, tm.IsActive, where, m.describe())
+			}
+		}
 	}
 	// balances: requests are paid to the module, completed current-group signings pay their assignees, nothing else moves
 	for _, a := range w.tracked() {
